@@ -111,6 +111,17 @@ func (c crashAt) String() string {
 	return fmt.Sprintf("w%d@%d", c.W, c.K)
 }
 
+// violation of C18: kind is a coarse class that does not depend on the order in
+// which Write walks its file map (rapid compares failure messages between
+// re-runs of a case while shrinking); detail is the full observation.
+type violation struct{ kind, detail string }
+
+func (v *violation) Error() string { return v.detail }
+
+func vio(kind, format string, args ...any) error {
+	return &violation{kind: kind, detail: fmt.Sprintf(format, args...)}
+}
+
 var versionName = regexp.MustCompile(`[0-9]{12,}-tgt`)
 
 type crashSentinel struct{}          // the process "dies" here
@@ -153,24 +164,24 @@ func (r *runner) observe(where string) error {
 		if want == nil {
 			return nil
 		}
-		return fmt.Errorf("%s: the target does not exist although write %s %v was committed", where, want.tag, want.set)
+		return vio("target-does-not-resolve", "%s: the target does not exist although write %s %v was committed", where, want.tag, want.set)
 	}
 	if err != nil {
-		return fmt.Errorf("%s: lstat target: %v", where, err)
+		return vio("target-unreadable", "%s: lstat target: %v", where, err)
 	}
 	if want == nil {
-		return fmt.Errorf("%s: the target exists (%v) before any Write was committed", where, li.Mode())
+		return vio("target-before-first-commit", "%s: the target exists (%v) before any Write was committed", where, li.Mode())
 	}
 	si, err := os.Stat(r.target)
 	if err != nil {
-		return fmt.Errorf("%s: the target does not resolve: %v (want the set of write %s %v)", where, err, want.tag, want.set)
+		return vio("target-does-not-resolve", "%s: the target does not resolve: %v (want the set of write %s %v)", where, err, want.tag, want.set)
 	}
 	if !si.IsDir() {
-		return fmt.Errorf("%s: the target resolves to %v, not to a directory", where, si.Mode())
+		return vio("target-not-a-directory", "%s: the target resolves to %v, not to a directory", where, si.Mode())
 	}
 	ents, err := os.ReadDir(r.target)
 	if err != nil {
-		return fmt.Errorf("%s: listing the target: %v", where, err)
+		return vio("target-unreadable", "%s: listing the target: %v", where, err)
 	}
 	var got []string
 	for _, e := range ents {
@@ -182,15 +193,15 @@ func (r *runner) observe(where string) error {
 		names = append(names, f.Name)
 	}
 	if strings.Join(got, ",") != strings.Join(names, ",") {
-		return fmt.Errorf("%s: the target lists [%s], want exactly the set of write %s %v", where, strings.Join(got, ","), want.tag, want.set)
+		return vio("not-exactly-one-write-set", "%s: the target lists [%s], want exactly the set of write %s %v", where, strings.Join(got, ","), want.tag, want.set)
 	}
 	for _, f := range want.set {
 		b, err := os.ReadFile(filepath.Join(r.target, f.Name))
 		if err != nil {
-			return fmt.Errorf("%s: reading %s through the target: %v", where, f.Name, err)
+			return vio("not-exactly-one-write-set", "%s: reading %s through the target: %v", where, f.Name, err)
 		}
 		if w := body(want.tag, f.Name, f.Len); string(b) != string(w) {
-			return fmt.Errorf("%s: file %s read through the target holds %q, want %q of write %s %v", where, f.Name, clip(b), clip(w), want.tag, want.set)
+			return vio("not-exactly-one-write-set", "%s: file %s read through the target holds %q, want %q of write %s %v", where, f.Name, clip(b), clip(w), want.tag, want.set)
 		}
 	}
 	return nil
@@ -208,11 +219,11 @@ func clip(b []byte) string {
 func (r *runner) baseClean(where string) error {
 	link, err := os.Readlink(r.target)
 	if err != nil {
-		return fmt.Errorf("%s: the target is not a link to a version directory: %v", where, err)
+		return vio("base-not-clean-without-crash", "%s: the target is not a link to a version directory: %v", where, err)
 	}
 	ents, err := os.ReadDir(r.base)
 	if err != nil {
-		return fmt.Errorf("%s: listing the base directory: %v", where, err)
+		return vio("base-not-clean-without-crash", "%s: listing the base directory: %v", where, err)
 	}
 	var got []string
 	for _, e := range ents {
@@ -222,7 +233,7 @@ func (r *runner) baseClean(where string) error {
 	sort.Strings(want)
 	sort.Strings(got)
 	if filepath.Dir(link) != r.base || strings.Join(got, " ") != strings.Join(want, " ") {
-		return fmt.Errorf("%s: no crash so far, but the base directory holds [%s]; want exactly the target link and its version directory [%s] (link -> %s)",
+		return vio("base-not-clean-without-crash", "%s: no crash so far, but the base directory holds [%s]; want exactly the target link and its version directory [%s] (link -> %s)",
 			where, strings.Join(got, " "), strings.Join(want, " "), link)
 	}
 	return nil
@@ -341,8 +352,12 @@ func runCase(h history, c crashAt) (res result, viol error, herr error) {
 		// messages must be a pure function of the case (rapid re-runs and compares them):
 		// no scratch path, no time-derived version directory names
 		if viol != nil {
-			msg := strings.ReplaceAll(viol.Error(), r.root, "<scratch>")
-			viol = errors.New(versionName.ReplaceAllString(msg, "<version>-tgt"))
+			var v *violation
+			if !errors.As(viol, &v) {
+				v = &violation{kind: "other", detail: viol.Error()}
+			}
+			msg := strings.ReplaceAll(v.detail, r.root, "<scratch>")
+			viol = &violation{kind: v.kind, detail: versionName.ReplaceAllString(msg, "<version>-tgt")}
 		}
 	}()
 
@@ -368,13 +383,13 @@ func runCase(h history, c crashAt) (res result, viol error, herr error) {
 			return res, nil, fmt.Errorf("crash point %v not reached: write %s passed only %d hook points %v", c, tag, len(pts), pts)
 		}
 		if werr != nil {
-			return res, fmt.Errorf("write %s %v returned %q although no crash was injected", tag, ws, werr), nil
+			return res, vio("write-failed-without-crash", "write %s %v returned %q although no crash was injected", tag, ws, werr), nil
 		}
 		if v := r.observe(fmt.Sprintf("after write %s %v returned", tag, ws)); v != nil {
 			return res, v, nil
 		}
 		if r.committed == nil || r.committed.tag != tag {
-			return res, fmt.Errorf("write %s %v returned nil without passing its rename", tag, ws), nil
+			return res, vio("returned-nil-without-rename", "write %s %v returned nil without passing its rename", tag, ws), nil
 		}
 		if v := r.baseClean(fmt.Sprintf("after write %s %v returned", tag, ws)); v != nil {
 			return res, v, nil
@@ -412,13 +427,13 @@ func runCase(h history, c crashAt) (res result, viol error, herr error) {
 			break
 		}
 		if werr != nil {
-			return res, fmt.Errorf("after the crash at %v (%s) the recovering write %s %v of a fresh Dir failed: %v", c, res.crashName, tag, ws, werr), nil
+			return res, vio("recovering-write-failed", "after the crash at %v (%s) the recovering write %s %v of a fresh Dir failed: %v", c, res.crashName, tag, ws, werr), nil
 		}
 		if v := r.observe(fmt.Sprintf("after recovering write %s %v returned", tag, ws)); v != nil {
 			return res, v, nil
 		}
 		if r.committed == nil || r.committed.tag != tag {
-			return res, fmt.Errorf("recovering write %s %v returned nil without passing its rename", tag, ws), nil
+			return res, vio("returned-nil-without-rename", "recovering write %s %v returned nil without passing its rename", tag, ws), nil
 		}
 	}
 	if res.crash2Fired {
@@ -429,14 +444,14 @@ func runCase(h history, c crashAt) (res result, viol error, herr error) {
 			return res, v, nil
 		}
 		if werr != nil {
-			return res, fmt.Errorf("after crashes at %v (%s) and r0@%d (%s) the recovering write q0 %v of a fresh Dir failed: %v",
+			return res, vio("recovering-write-failed", "after crashes at %v (%s) and r0@%d (%s) the recovering write q0 %v of a fresh Dir failed: %v",
 				c, res.crashName, h.Crash2, res.crash2Name, h.Recov2, werr), nil
 		}
 		if v := r.observe(fmt.Sprintf("after recovering write q0 %v returned", h.Recov2)); v != nil {
 			return res, v, nil
 		}
 		if r.committed == nil || r.committed.tag != "q0" {
-			return res, fmt.Errorf("recovering write q0 %v returned nil without passing its rename", h.Recov2), nil
+			return res, vio("returned-nil-without-rename", "recovering write q0 %v returned nil without passing its rename", h.Recov2), nil
 		}
 	}
 	if ents, err := os.ReadDir(r.base); err == nil {
